@@ -330,7 +330,9 @@ func (a *Anchors) fieldByRole(t *types.Named, st *types.Struct, name string) *ty
 		case "scaleUpLock":
 			f = byType(func(x types.Type) bool { return a.TLock != nil && types.Identical(x, a.TLock) })
 		case "NodeInfoMap":
-			f = byType(func(x types.Type) bool { return strings.HasSuffix(x.String(), "k8s.NodeInfo") && strings.HasPrefix(x.String(), "map[") })
+			f = byType(func(x types.Type) bool {
+				return strings.HasSuffix(x.String(), "k8s.NodeInfo") && strings.HasPrefix(x.String(), "map[")
+			})
 		case "lastScaleOut":
 			f = byType(typeStr("time.Time"))
 		case "scaleDelta":
@@ -395,9 +397,13 @@ func (a *Anchors) fieldByRole(t *types.Named, st *types.Struct, name string) *ty
 	case t == a.TController:
 		switch name {
 		case "nodeGroups":
-			f = byType(func(x types.Type) bool { return strings.HasPrefix(x.String(), "map[string]*") && strings.HasSuffix(x.String(), "."+a.TState.Obj().Name()) })
+			f = byType(func(x types.Type) bool {
+				return strings.HasPrefix(x.String(), "map[string]*") && strings.HasSuffix(x.String(), "."+a.TState.Obj().Name())
+			})
 		case "cloudProvider":
-			f = byType(func(x types.Type) bool { return a.IfaceCloudProvider != nil && types.Identical(x, a.IfaceCloudProvider) })
+			f = byType(func(x types.Type) bool {
+				return a.IfaceCloudProvider != nil && types.Identical(x, a.IfaceCloudProvider)
+			})
 		}
 	}
 	a.fieldRoles[key] = f
